@@ -906,6 +906,13 @@ class Parser:
                     # Parsing a kwarg
                     ensure(dyn_kwargs is None)
                     key = self.stream.current.value
+
+                    if any(kwarg.key == key for kwarg in kwargs):
+                        self.fail(
+                            f"keyword argument {key!r} repeated",
+                            self.stream.current.lineno,
+                        )
+
                     self.stream.skip(2)
                     value = self.parse_expression()
                     kwargs.append(nodes.Keyword(key, value, lineno=value.lineno))
